@@ -33,12 +33,19 @@ package pool
 //@ ensures [one-effect] err == nil ==> effects == old(effects) + 1
 //@ modifies authOK, authMethod, authID, authNonce, authArgs, nonceOK, nonceID, nonceVal, p.Store.nonce, effects
 
+// the address a connection reports for its remote end (the method of the anonymous interface connect asserts for)
+//@ ghost var lastRemoteAddr string
+//@ interface ?.RemoteAddr() (result)
+//@ defines [addr] lastRemoteAddr == result
+//@ modifies lastRemoteAddr
+
 // connect: a full node is registered under its authenticated id on the connection the request arrived on (the service
 // in the request context), nothing else in the registry moves, and the node record that is stored (and later handed to
 // clients) carries that id and, for a host, an address made by normalizeNodeURI from what the host said and where it
 // connected from.
 //@ func (*VipnodePool).connect
-//@ property C04 C06 C09 C10 C15 C19
+//@ property C03 C04 C06 C09 C10 C15 C19
+//@ callreq Manager.OnClient [admission-judges-the-registered-node] {C03} : p.Store.reg[arg0.ID] && arg0.ID == store.NodeID(nodeID) && arg0.IsHost == req.NodeInfo.IsFullNode
 //@ safety on
 //@ requires authOK && authID == nodeID && nonceOK && nonceID == nodeID
 //@ requires !held(p.mu) && registryInv(p)
@@ -61,8 +68,10 @@ package pool
 //@        && (suppliedHost(req.NodeURI) != "" ==> splitHost(uriHost(p.Store.node[store.NodeID(nodeID)].URI)) == suppliedHost(req.NodeURI))
 //@        && splitPort(uriHost(p.Store.node[store.NodeID(nodeID)].URI)) == wantPort(req.NodeURI, "30303")
 //@        && splitHost(uriHost(p.Store.node[store.NodeID(nodeID)].URI)) != ""
+//@ ensures [default-is-the-connection-address] {C19} err == nil && req.NodeInfo.IsFullNode && suppliedHost(req.NodeURI) == "" ==>
+//@        splitHost(uriHost(p.Store.node[store.NodeID(nodeID)].URI)) == hostnameOf(lastRemoteAddr)
 //@ ensures [other-records-kept] {C19} forall id store.NodeID :: id != store.NodeID(nodeID) ==> p.Store.node[id] == old(p.Store.node[id]) && p.Store.reg[id] == old(p.Store.reg[id])
-//@ modifies effects, p.remoteHosts, p.remoteNodeLookup, p.Store.reg, p.Store.node, clock
+//@ modifies effects, p.remoteHosts, p.remoteNodeLookup, p.Store.reg, p.Store.node, clock, lastRemoteAddr
 
 // disconnectPeers (the low-balance cut-off fan-out): for every peer of the client that has a registered connection one
 // goroutine is started on exactly that connection (captured variable 1 = remote), each asks "vipnode_disconnect" for this
@@ -143,7 +152,7 @@ package pool
 //@ property C04 C06 C09
 //@ requires !authOK && !nonceOK && !held(p.mu) && registryInv(p)
 //@ ensures [inv] {C09} registryInv(p)
-//@ ensures [authorised] effects != old(effects) ==> authorised("vipnode_connect", nodeID, nonce) && verifiedConnect(authArgs, req)
+//@ ensures [authorised] {C04 C05 C06} effects != old(effects) ==> authorised("vipnode_connect", nodeID, nonce) && verifiedConnect(authArgs, req)
 //@ ensures [refused-error]    !(authOK && nonceOK) ==> typeis(err, VerifyFailedError)
 //@ ensures [refused-no-trace] !(authOK && nonceOK) ==> effects == old(effects) && p.Store.nonce == old(p.Store.nonce)
 //@                              && (forall id store.NodeID :: has(p.remoteHosts, id) == old(has(p.remoteHosts, id)) && p.remoteHosts[id] == old(p.remoteHosts[id]))
@@ -152,7 +161,7 @@ package pool
 //@ property C04 C06 C09
 //@ requires !authOK && !nonceOK && !held(p.mu) && registryInv(p)
 //@ ensures [inv] {C09} registryInv(p)
-//@ ensures [authorised] effects != old(effects) ==> authorised("vipnode_host", nodeID, nonce) && verifiedHost(authArgs, req)
+//@ ensures [authorised] {C04 C05 C06} effects != old(effects) ==> authorised("vipnode_host", nodeID, nonce) && verifiedHost(authArgs, req)
 //@ ensures [refused-error]    !(authOK && nonceOK) ==> typeis(err, VerifyFailedError)
 //@ ensures [refused-no-trace] !(authOK && nonceOK) ==> effects == old(effects) && p.Store.nonce == old(p.Store.nonce)
 //@                              && (forall id store.NodeID :: has(p.remoteHosts, id) == old(has(p.remoteHosts, id)) && p.remoteHosts[id] == old(p.remoteHosts[id]))
@@ -161,7 +170,7 @@ package pool
 //@ property C04 C06 C09
 //@ requires !authOK && !nonceOK && !held(p.mu) && registryInv(p)
 //@ ensures [inv] {C09} registryInv(p)
-//@ ensures [authorised] effects != old(effects) ==> authorised("vipnode_client", nodeID, nonce) && verifiedClient(authArgs, req)
+//@ ensures [authorised] {C04 C05 C06} effects != old(effects) ==> authorised("vipnode_client", nodeID, nonce) && verifiedClient(authArgs, req)
 //@ ensures [refused-error]    !(authOK && nonceOK) ==> typeis(err, VerifyFailedError)
 //@ ensures [refused-no-trace] !(authOK && nonceOK) ==> effects == old(effects) && p.Store.nonce == old(p.Store.nonce)
 //@                              && (forall id store.NodeID :: has(p.remoteHosts, id) == old(has(p.remoteHosts, id)) && p.remoteHosts[id] == old(p.remoteHosts[id]))
@@ -170,7 +179,7 @@ package pool
 //@ property C04 C06 C09
 //@ requires !authOK && !nonceOK && !held(p.mu) && registryInv(p)
 //@ ensures [inv] {C09} registryInv(p)
-//@ ensures [authorised] effects != old(effects) ==> authorised("vipnode_peer", nodeID, nonce) && verifiedPeer(authArgs, req)
+//@ ensures [authorised] {C04 C05 C06} effects != old(effects) ==> authorised("vipnode_peer", nodeID, nonce) && verifiedPeer(authArgs, req)
 //@ ensures [refused-error]    !(authOK && nonceOK) ==> typeis(err, VerifyFailedError)
 //@ ensures [refused-no-trace] !(authOK && nonceOK) ==> effects == old(effects) && p.Store.nonce == old(p.Store.nonce)
 
@@ -193,7 +202,7 @@ package pool
 //@ ensures [cut-off-asks-the-hosts] {C03} typeis(err, balance.LowBalanceError) ==> callcount("disconnectPeers") == 1
 //@        && callarg("disconnectPeers", 2)[0] == nodeID && callarg("disconnectPeers", 3)[0] == store.lastNodePeers
 //@ ensures [nobody-else-is-cut-off] {C03} !typeis(err, balance.LowBalanceError) ==> callcount("disconnectPeers") == 0
-//@ ensures [authorised] effects != old(effects) ==> authorised("vipnode_update", nodeID, nonce) && verifiedUpdate(authArgs, req)
+//@ ensures [authorised] {C04 C05 C06} effects != old(effects) ==> authorised("vipnode_update", nodeID, nonce) && verifiedUpdate(authArgs, req)
 //@ ensures [refused-error]    !(authOK && nonceOK) ==> typeis(err, VerifyFailedError)
 //@ ensures [refused-no-trace] !(authOK && nonceOK) ==> effects == old(effects) && p.Store.nonce == old(p.Store.nonce)
 
